@@ -693,7 +693,9 @@ func (x *Exec) load(st *State, in ssa.Instruction, addr Val, t types.Type) Val {
 		st.assume(x.wf(st, t, v))
 		return v
 	case VRef:
-		x.safety(st, in, "nil", Not(Eq(p.T, e.ar.IConst(0))), "pointer is non-nil")
+		if !(p.T.Op == "app" && (strings.HasPrefix(p.T.Name, "sub_") || p.T.Name == "elemref")) {
+			x.safety(st, in, "nil", Not(Eq(p.T, e.ar.IConst(0))), "pointer is non-nil")
+		}
 		if !isStruct(t) {
 			x.fail("load of non-struct through object reference")
 		}
